@@ -274,7 +274,12 @@ pub fn run(ctx: &Ctx) -> Report {
         let n = (i / 5) as i64;
         let delta = (i % 5) as i64 - 2;
         let total = ((192u64 << n) as i64 + delta) as u64;
-        for tail in [&b"Hello, World!\n"[..], &[1u8][..], &corpus::W[0][..], &corpus::Z[..]] {
+        // short tails: ordinary bytes, one trigger word, zeros, and the words with extreme / zero rolling-hash values
+        let mut tails: Vec<&[u8]> = vec![&b"Hello, World!\n"[..], &[1u8][..], &corpus::W[0][..], &corpus::Z[..], &corpus::U[..]];
+        for w in corpus::CORNER_WORDS.iter() {
+            tails.push(&w.1[..]);
+        }
+        for tail in tails {
             if total < tail.len() as u64 {
                 continue;
             }
